@@ -18,14 +18,19 @@ class Unsupported(Exception):
     pass
 
 
+class BatchMix(Exception):
+    """an operation whose meaning changes when an operand carries batch axes (a batched 'vector' used as a matrix)"""
+
+
 class IX:
     """axes: labels of the trailing axes (left to right); terms: list of (coef, factors, summed) with factors a tuple of
     (atom, index tuple) and summed a frozenset of labels"""
     _n = [0]
 
-    def __init__(self, axes, terms):
+    def __init__(self, axes, terms, batched: bool = True):
         self.axes = list(axes)
         self.terms = list(terms)
+        self.batched = batched          # may carry (implicit) leading batch axes besides the listed trailing ones
 
     @classmethod
     def fresh(cls, hint="i") -> str:
@@ -33,9 +38,9 @@ class IX:
         return "%s%d" % (hint, cls._n[0])
 
     @classmethod
-    def atom(cls, name: str, rank: int) -> "IX":
+    def atom(cls, name: str, rank: int, batched: bool = True) -> "IX":
         labels = [cls.fresh() for _ in range(rank)]
-        return cls(labels, [(Fraction(1), ((name, tuple(labels)),), frozenset())])
+        return cls(labels, [(Fraction(1), ((name, tuple(labels)),), frozenset())], batched)
 
     def rename(self, mapping: Dict[str, object]) -> "IX":
         def r(x):
@@ -43,7 +48,7 @@ class IX:
         terms = []
         for c, fs, sm in self.terms:
             terms.append((c, tuple((a, tuple(r(i) for i in idx)) for a, idx in fs), frozenset(r(s) for s in sm)))
-        return IX([r(a) for a in self.axes], terms)
+        return IX([r(a) for a in self.axes], terms, self.batched)
 
     def fresh_copy(self) -> "IX":
         """the same value with new names for all its labels (every read of a variable gets its own labels)"""
@@ -57,7 +62,7 @@ class IX:
         for c, fs, sm in self.terms:
             mp = {s: IX.fresh("s") for s in sm}
             terms.append((c, tuple((a, tuple(mp.get(i, i) if isinstance(i, str) else i for i in idx)) for a, idx in fs), frozenset(mp.values())))
-        return IX(self.axes, terms)
+        return IX(self.axes, terms, self.batched)
 
     # ------------------------------------------------------------------ canonical form
     def canonical(self):
@@ -100,6 +105,11 @@ def _norm(k: int, n: int) -> int:
     return k
 
 
+def conj(v: IX) -> IX:
+    """complex conjugate: toggles the `*` mark of every atom (coefficients are real)"""
+    return IX(v.axes, [(c, tuple(((a[:-1] if a.endswith("*") else a + "*"), idx) for a, idx in fs), sm) for c, fs, sm in v.terms], v.batched)
+
+
 def unsqueeze(v: IX, k: int) -> IX:
     if k >= 0:
         raise Unsupported("unsqueeze at a position counted from the left (batch axes are implicit)")
@@ -108,7 +118,7 @@ def unsqueeze(v: IX, k: int) -> IX:
     if pos < 0:
         raise Unsupported("unsqueeze beyond the known axes")
     axes.insert(pos, None)
-    return IX(axes, v.terms)
+    return IX(axes, v.terms, v.batched)
 
 
 def squeeze(v: IX, k: int) -> IX:
@@ -119,7 +129,7 @@ def squeeze(v: IX, k: int) -> IX:
         raise Unsupported("squeeze of an axis that is not known to have size 1")
     axes = list(v.axes)
     del axes[pos]
-    return IX(axes, v.terms)
+    return IX(axes, v.terms, v.batched)
 
 
 def _align(a: IX, b: IX):
@@ -156,16 +166,16 @@ def mul(a: IX, b: IX) -> IX:
     for c1, f1, s1 in a.terms:
         for c2, f2, s2 in b.terms:
             terms.append((c1 * c2, tuple(f1) + tuple(f2), s1 | s2))
-    return IX(axes, terms)
+    return IX(axes, terms, a.batched or b.batched)
 
 
 def add(a: IX, b: IX, sign: int = 1) -> IX:
     axes, a, b = _align(a, b)
-    return IX(axes, list(a.terms) + [(c * sign, f, s) for c, f, s in b.terms])
+    return IX(axes, list(a.terms) + [(c * sign, f, s) for c, f, s in b.terms], a.batched or b.batched)
 
 
 def scale(a: IX, c) -> IX:
-    return IX(a.axes, [(k * Fraction(c), f, s) for k, f, s in a.terms])
+    return IX(a.axes, [(k * Fraction(c), f, s) for k, f, s in a.terms], a.batched)
 
 
 def sum_axis(v: IX, k: int) -> IX:
@@ -176,15 +186,17 @@ def sum_axis(v: IX, k: int) -> IX:
     axes = list(v.axes)
     del axes[pos]
     if lab is None:
-        return IX(axes, v.terms)
+        return IX(axes, v.terms, v.batched)
     if not isinstance(lab, str):
         raise Unsupported("sum over a fixed position")
-    return IX(axes, [(c, f, s | {lab}) for c, f, s in v.terms])
+    return IX(axes, [(c, f, s | {lab}) for c, f, s in v.terms], v.batched)
 
 
 def fix_axis(v: IX, k: int, pos_value: int, from_left: bool = False) -> IX:
     """x[..., pos_value, <rest>]: the k-th trailing axis is fixed to a position and removed"""
     pos = k if from_left else _norm(k, len(v.axes))
+    if from_left and v.batched:
+        raise Unsupported("index counted from the left of a value that may carry batch axes")
     if from_left and not 0 <= pos < len(v.axes):
         raise Unsupported("index beyond the known axes")
     lab = v.axes[pos]
@@ -192,9 +204,9 @@ def fix_axis(v: IX, k: int, pos_value: int, from_left: bool = False) -> IX:
     del axes[pos]
     if lab is None:
         if pos_value in (0, -1):
-            return IX(axes, v.terms)
+            return IX(axes, v.terms, v.batched)
         raise Unsupported("position %d of a size-1 axis" % pos_value)
-    return IX(axes, v.terms).rename({lab: pos_value}) if isinstance(lab, str) else IX(axes, v.terms)
+    return IX(axes, v.terms, v.batched).rename({lab: pos_value}) if isinstance(lab, str) else IX(axes, v.terms, v.batched)
 
 
 def transpose(v: IX, i: int, j: int) -> IX:
@@ -203,7 +215,7 @@ def transpose(v: IX, i: int, j: int) -> IX:
     a, b = _norm(i, len(v.axes)), _norm(j, len(v.axes))
     axes = list(v.axes)
     axes[a], axes[b] = axes[b], axes[a]
-    return IX(axes, v.terms)
+    return IX(axes, v.terms, v.batched)
 
 
 def matmul(a: IX, b: IX) -> IX:
@@ -211,10 +223,15 @@ def matmul(a: IX, b: IX) -> IX:
     if ra == 0 or rb == 0:
         raise Unsupported("matmul of a value without known axes")
     if rb == 1:
-        # (.., i, k) @ (k,)  ->  (.., i)
+        # (.., i, k) @ (k,)  ->  (.., i): torch treats the second operand as a vector only if it is exactly 1-D
+        if b.batched:
+            raise BatchMix("the second operand of matmul is a vector that may carry batch axes: with batch axes it is used as a matrix")
         return sum_axis(mul(a, b), -1)
     if ra == 1:
-        # (k,) @ (.., k, j) -> (.., j)
+        # (k,) @ (.., k, j) -> (.., j).  A 'vector' with batch axes (B, k) is a matrix for torch: rows times an UNBATCHED matrix is still
+        # right, but against a batched matrix its batch axis is taken for the row index
+        if a.batched and b.batched:
+            raise BatchMix("a vector that may carry batch axes is the first operand of matmul with a matrix that may be batched: its last batch axis is used as a row index")
         return sum_axis(mul(unsqueeze(a, -1), b), -2)
     # (.., i, k) @ (.., k, j): A -> (.., i, k, 1), B -> (.., 1, k, j), sum over k
     return sum_axis(mul(unsqueeze(a, -1), unsqueeze(b, -3)), -2)
@@ -261,7 +278,7 @@ def einsum(spec: str, ops: List[IX]) -> IX:
         prod_terms = new
     summed = {lab for ch, lab in letter.items() if ch not in rhs_}
     axes = [letter[ch] for ch in rhs_]
-    return IX(axes, [(c, f, s | summed) for c, f, s in prod_terms])
+    return IX(axes, [(c, f, s | summed) for c, f, s in prod_terms], any(v.batched for v in vals))
 
 
 class IndexEval:
@@ -291,7 +308,7 @@ class IndexEval:
         if src in self.env:
             return self.env[src].fresh_copy()
         if isinstance(e, ast.Constant) and isinstance(e.value, (int, float)) and not isinstance(e.value, bool):
-            return IX([], [(Fraction(repr(e.value)) if isinstance(e.value, float) else Fraction(e.value), (), frozenset())])
+            return IX([], [(Fraction(repr(e.value)) if isinstance(e.value, float) else Fraction(e.value), (), frozenset())], False)
         if isinstance(e, ast.UnaryOp) and isinstance(e.op, ast.USub):
             return scale(self.ev(e.operand), -1)
         if isinstance(e, ast.BinOp):
@@ -386,7 +403,25 @@ class IndexEval:
                 return add(self.ev(operands[0]), self.ev(operands[1]))
             if name in ("contiguous", "clone") and len(operands) == 1:
                 return self.ev(operands[0])
+            if name in ("conj", "conj_physical") and len(operands) == 1:
+                return conj(self.ev(operands[0]))
+            if name == "resolve_conj" and len(operands) == 1:
+                return self.ev(operands[0])
+            if name == "adjoint" and len(operands) == 1:
+                return conj(transpose(self.ev(operands[0]), -2, -1))
+            if name == "movedim" and len(operands) == 3 and self.const_int(operands[1]) is not None and self.const_int(operands[2]) is not None:
+                v_ = self.ev(operands[0])
+                a_, b_ = self.const_int(operands[1]), self.const_int(operands[2])
+                if a_ < 0 and b_ < 0:
+                    axes = list(v_.axes)
+                    lab = axes.pop(_norm(a_, len(axes)))
+                    axes.insert(_norm(b_, len(axes) + 1), lab)
+                    return IX(axes, v_.terms, v_.batched)
+                raise Unsupported("movedim with axes counted from the left")
             raise Unsupported("call %s" % fn)
+        if isinstance(e, ast.Attribute) and e.attr in ("mH", "mT", "H", "T"):
+            v_ = transpose(self.ev(e.value), -2, -1)
+            return conj(v_) if e.attr in ("mH", "H") else v_
         if isinstance(e, ast.Name):
             raise Unsupported("unbound name %s" % e.id)
         raise Unsupported("expression %s" % src[:60])
